@@ -18,6 +18,12 @@ def BlockFn (bs : Nat) (E : Bytes → Bytes) : Prop := ∀ x : Bytes, x.length =
 block; `crypto/cipher.NewCFBEncrypter(block, initialVector[:bs])` -/
 def iv (bs : Nat) : Bytes := Gen.initialVector.take bs
 
+/-- wire compatibility: the IV in the source is the one every deployed peer uses (the value is
+pinned here and in the harness; `Gen.initialVector` is regenerated from crypt.go on every run) -/
+theorem C08_iv_pinned :
+    Gen.initialVector = [167, 115, 79, 156, 18, 172, 27, 1, 164, 21, 242, 193, 252, 120, 230, 107] := by
+  decide
+
 theorem C08_iv_fits (bs : Nat) (h : bs = 8 ∨ bs = 16) : bs ≤ Gen.initialVector.length := by
   rcases h with rfl | rfl <;> decide
 
